@@ -707,26 +707,11 @@ pub fn run(tier: Tier) -> Report {
 }
 
 pub fn replay(v: &Value) -> Result<(), String> {
-    let label = v["exploration"].as_str().unwrap_or("");
-    let init = v["init"].as_u64().unwrap_or(0) as usize;
-    let path: Vec<usize> = v["path"]
-        .as_array()
-        .map(|a| a.iter().map(|x| x.as_u64().unwrap_or(0) as usize).collect())
-        .unwrap_or_default();
+    let mut ms = Vec::new();
     for tier in [Tier::Quick, Tier::Thorough] {
         for (l, m, _) in models(tier) {
-            if label.starts_with(&l) {
-                return match engine::replay(&*m, init, &path) {
-                    None => Ok(()),
-                    Some((i, f)) => Err(format!(
-                        "step {i} ({}): [{}] {}",
-                        path.get(i).map(|e| m.event_name(*e)).unwrap_or_default(),
-                        f.key,
-                        f.msg
-                    )),
-                };
-            }
+            ms.push((l, m));
         }
     }
-    Err(format!("unknown exploration label {label:?}"))
+    engine::replay_json(&ms, v)
 }
